@@ -773,7 +773,15 @@ func podsRef(kind string, ws []W, o metav1.Object) bool {
 }
 
 func buildPods(kind string, ws []W) filter.ComparableFilter {
-	om := func(w W) metav1.ObjectMeta { return metav1.ObjectMeta{Namespace: w.NS, Name: w.Name} }
+	// (generation set; the workloads of namespace "a" are terminating but still exist: ownership does not depend on it)
+	om := func(w W) metav1.ObjectMeta {
+		m := metav1.ObjectMeta{Namespace: w.NS, Name: w.Name, Generation: 3}
+		if w.NS == "a" {
+			t := metav1.Unix(1000, 0)
+			m.DeletionTimestamp = &t
+		}
+		return m
+	}
 	switch kind {
 	case "svc":
 		var xs []*corev1.Service
